@@ -1420,6 +1420,11 @@ typedef struct spifmem_memrec_t {
 #ifndef PATH_MAX
 #  define PATH_MAX 255
 #endif
+#if defined(LIBAST_VERIF) && defined(LIBAST_VERIF_PATH_MAX)
+/* verification hook: scaled path-buffer limit */
+# undef PATH_MAX
+# define PATH_MAX LIBAST_VERIF_PATH_MAX
+#endif
 
 /**
  * Maximum length of a line in a config file.
@@ -1430,6 +1435,11 @@ typedef struct spifmem_memrec_t {
  * @ingroup DOXGRP_CONF
  */
 #define CONFIG_BUFF                     20480
+#if defined(LIBAST_VERIF) && defined(LIBAST_VERIF_CONFIG_BUFF)
+/* verification hook: scaled line-buffer limit */
+# undef CONFIG_BUFF
+# define CONFIG_BUFF                    LIBAST_VERIF_CONFIG_BUFF
+#endif
 
 /**
  * Special flag character.
